@@ -155,6 +155,47 @@ CHECKS["C12"] = dict(
          "cycles is outside.",
 )
 
+CHECKS["C01"] = dict(
+    engine="sbvm",
+    technique="SMT (z3) over a symbolic execution of the real inotify pipeline (Inotify.__init__/read_events, "
+              "InotifyBuffer.run/_group_events, DelayedQueue, InotifyEmitter.queue_events, generate_sub_*_events) on "
+              "symbolic operations over a file-system/kernel model",
+    level=("model_checking", 'For every valid operation (kind and operands symbolic) on the initial tree, with recursive/non-recursive watches, str/bytes roots, normal/full emitters and one-event-per-read or one-read-per-burst batching, replaying the delivered created/deleted/moved events on the initial tree yields the final tree; two-operation histories in the thorough tier.', "DESIGN.md section 9"),
+    note='Trusted: the file-system + inotify kernel model vf/fsmodel.py (inotify(7) contract, not re-validated against the real kernel at run time), sequential threading models, the replay semantics of DESIGN.md 9.0, VM semantics (every counterexample is replayed natively against the real library code over the same model), z3. Quick tier: every single operation from the operand pools on a fixed initial tree; thorough: two-operation histories (settled and back to back under the pacing condition).',
+)
+CHECKS["C02"] = dict(
+    engine="sbvm",
+    technique="SMT (z3) over a symbolic execution of the real inotify pipeline (Inotify.__init__/read_events, "
+              "InotifyBuffer.run/_group_events, DelayedQueue, InotifyEmitter.queue_events, generate_sub_*_events) on "
+              "symbolic operations over a file-system/kernel model",
+    level=("model_checking", "After every valid operation the library's watch map holds every directory that exists under the root under its current path, and a probe file created in a symbolically chosen existing directory is reported under its real path (non-recursive: deeper probes are never reported).", "DESIGN.md section 9"),
+    note='Trusted: the file-system + inotify kernel model vf/fsmodel.py (inotify(7) contract, not re-validated against the real kernel at run time), sequential threading models, the replay semantics of DESIGN.md 9.0, VM semantics (every counterexample is replayed natively against the real library code over the same model), z3. Quick tier: every single operation from the operand pools on a fixed initial tree; thorough: two-operation histories (settled and back to back under the pacing condition).',
+)
+CHECKS["C03"] = dict(
+    engine="sbvm",
+    technique="SMT (z3) over a symbolic execution of the real inotify pipeline (Inotify.__init__/read_events, "
+              "InotifyBuffer.run/_group_events, DelayedQueue, InotifyEmitter.queue_events, generate_sub_*_events) on "
+              "symbolic operations over a file-system/kernel model",
+    level=("model_checking", "Every single operation, settled, produces exactly the multiset of events of its contract (written independently from the statement's examples): nothing required missing, nothing outside the contract, for recursive/non-recursive watches and normal/full emitters. Soundness of events over longer histories only in the thorough tier.", "DESIGN.md section 9"),
+    note='Trusted: the file-system + inotify kernel model vf/fsmodel.py (inotify(7) contract, not re-validated against the real kernel at run time), sequential threading models, the replay semantics of DESIGN.md 9.0, VM semantics (every counterexample is replayed natively against the real library code over the same model), z3. Quick tier: every single operation from the operand pools on a fixed initial tree; thorough: two-operation histories (settled and back to back under the pacing condition).',
+)
+CHECKS["C07"] = dict(
+    engine="sbvm",
+    technique="SMT (z3) over a symbolic execution of the real inotify pipeline (Inotify.__init__/read_events, "
+              "InotifyBuffer.run/_group_events, DelayedQueue, InotifyEmitter.queue_events, generate_sub_*_events) on "
+              "symbolic operations over a file-system/kernel model",
+    level=("model_checking", 'For every valid operation, including operations on entries outside the watched tree, no code of the pipeline raises, and a probe made afterwards in an existing directory is still reported; two-operation histories (names re-used, moved-out directories) in the thorough tier. Root deletion and transient lookup failures are not covered.', "DESIGN.md section 9"),
+    note='Trusted: the file-system + inotify kernel model vf/fsmodel.py (inotify(7) contract, not re-validated against the real kernel at run time), sequential threading models, the replay semantics of DESIGN.md 9.0, VM semantics (every counterexample is replayed natively against the real library code over the same model), z3. Quick tier: every single operation from the operand pools on a fixed initial tree; thorough: two-operation histories (settled and back to back under the pacing condition).',
+)
+CHECKS["C19"] = dict(
+    engine="sbvm",
+    technique="SMT (z3) over a symbolic execution of the real inotify pipeline (Inotify.__init__/read_events, "
+              "InotifyBuffer.run/_group_events, DelayedQueue, InotifyEmitter.queue_events, generate_sub_*_events) on "
+              "symbolic operations over a file-system/kernel model",
+    level=("model_checking", 'For roots given as str, str with trailing slash and bytes, and file names including an undecodable byte and a multi-byte UTF-8 name, every non-empty path of every delivered event (source, destination, synthetic, parent-directory) has the type of the watched path and names the real entry. Inotify observer only; the polling observer is not covered here.', "DESIGN.md section 9"),
+    note='Trusted: the file-system + inotify kernel model vf/fsmodel.py (inotify(7) contract, not re-validated against the real kernel at run time), sequential threading models, the replay semantics of DESIGN.md 9.0, VM semantics (every counterexample is replayed natively against the real library code over the same model), z3. Quick tier: every single operation from the operand pools on a fixed initial tree; thorough: two-operation histories (settled and back to back under the pacing condition).',
+)
+
 NOT_YET = "check not built yet (work in progress; see DESIGN.md section 11 for the order)"
 NA = {}
 
